@@ -22,7 +22,7 @@ RULE = (
     "real process on a loopback port; the xandikos.wsgi module in a fresh process behind WellknownRedirector and a SCRIPT_NAME mount} x restarts {0, 1, 3}. A discovery client written for the "
     "harness starts at /.well-known/caldav, /.well-known/carddav and the root URL, follows redirects, reads current-user-principal, then calendar-home-set / addressbook-home-set / resourcetype of "
     "the principal, then lists the home sets with Depth 1, using only hrefs the server returned. It must reach >=1 calendar and >=1 address book; an event and a contact stored before the first "
-    "restart must be served with unchanged ETag and bytes after every restart and the set of collections must not change across restarts. Before the restarts a bare git calendar and a bare git address book are placed in the home sets and a calendar is linked into the calendar home set with a symbolic link (data that did not come through the server; all must be reached with their types), the client stores an event and a contact directly in the home sets (the collections must stay reachable), creates a collection of one type in a home set, deletes it and creates a collection of the "
+    "restart must be served with unchanged ETag and bytes after every restart and the set of collections must not change across restarts. After the first restart the calendar that holds the event is replaced, while the server is down, by a bare clone of itself (a restored backup; configurations with three restarts). Before the restarts a bare git calendar and a bare git address book are placed in the home sets and a calendar is linked into the calendar home set with a symbolic link (data that did not come through the server; all must be reached with their types), the client stores an event and a contact directly in the home sets (the collections must stay reachable), creates a collection of one type in a home set, deletes it and creates a collection of the "
     "other type at the same URL (both orders): discovery must list what exists now, with its type. Quick: 96 configurations (all with >=1 restart) sampled with the seed; "
     "thorough: all 288. Non-trivial: non-root prefix or nested principal, with >=1 restart; distinct by configuration."
 )
@@ -462,6 +462,24 @@ def run_config(cfg):
                     found = now
             for k in range(cfg["restarts"]):
                 srv.stop()
+                if k == 1 and cfg.get("bare", True):
+                    # while the server is down the calendar that holds the event is restored from a bare
+                    # backup (git clone --bare): same history, same objects, no work tree.  A start must
+                    # serve it as it is - in particular at a path the start-up code creates defaults for.
+                    pre = cfg["prefix"].rstrip("/")
+                    evp = urllib.parse.urlsplit(ev_url).path
+                    rel = urllib.parse.unquote(evp[len(pre):] if pre and evp.startswith(pre) else evp)
+                    fs = os.path.join(data, os.path.dirname(rel.strip("/")))
+                    if os.path.isdir(os.path.join(fs, ".git")) and not os.path.islink(fs):
+                        import subprocess
+
+                        tmpd = fs + ".restore"
+                        cp = subprocess.run(["git", "clone", "-q", "--bare", fs, tmpd], capture_output=True, env=dict(os.environ, GIT_CONFIG_NOSYSTEM="1"))
+                        if cp.returncode != 0:
+                            raise RuntimeError(f"harness: git clone --bare failed: {cp.stderr[:300]!r}")
+                        shutil.rmtree(fs)
+                        os.rename(tmpd, fs)
+                        trace.append(("restored-as-bare", fs))
                 flags = {"defaults": "defaults", "autocreate": "autocreate", "preexisting": "none"}[mode]
                 try:
                     srv = Server(cfg, data, flags)
@@ -508,6 +526,8 @@ def shard(shard, configs):
             out["nontrivial"].add(key)
         out["stats"][f"fe:{cfg['fe']}"] += 1
         out["stats"][f"mode:{cfg['mode']}"] += 1
+        if any(t and t[0] == "restored-as-bare" for t in r["trace"]):
+            out["stats"]["restored-as-bare"] += 1
         if len(out["samples"]) < 1:
             out["samples"].append({"config": cfg, "trace": [list(t) for t in r["trace"][:8]]})
         if not r["ok"]:
